@@ -1,7 +1,7 @@
 (* C19 — dominant bpm, scroll speed, SV normalisation.  Property theorems only: each is closed by [exact]
-   from Proofs/AnalysisProofs.v.  Model: Algo/DominantBpm.v, Algo/ScrollSpeed.v; specification: Algo/AnalysisSpec.v. *)
+   from Proofs/AnalysisProofs.v / Proofs/ScrollSvProofs.v.  Model: Algo/DominantBpm.v, Algo/ScrollSpeed.v; specification: Algo/AnalysisSpec.v. *)
 From Coq Require Import ZArith QArith Qabs List Bool.
-From RV Require Import Base.PyNum Algo.DominantBpm Algo.ScrollSpeed Algo.AnalysisSpec Proofs.AnalysisProofs.
+From RV Require Import Base.PyNum Algo.DominantBpm Algo.ScrollSpeed Algo.AnalysisSpec Proofs.AnalysisProofs Proofs.ScrollSvProofs.
 Import ListNotations.
 Open Scope Q_scope.
 
@@ -38,13 +38,40 @@ Theorem C19_scroll_speed_spec_nosv : forall c ov,
   wf_chart c = true -> wf_override ov = true -> c_svs c = None -> scroll_spec 0 c ov (scroll_speed c ov).
 Proof. exact scroll_speed_spec_nosv. Qed.
 
-(* PARTIAL, charts WITH an SV list (osu, Quaver) -- see Proofs/AnalysisProofs.v, section D, for the full statement
-   and exactly what is missing: scroll speed is bpm/ref * SV at every breakpoint and every tempo/SV point is a
-   breakpoint, for every chart of the exhaustive small scope. *)
-Theorem C19_scroll_speed_spec_partial : forall b s n,
+(* Scroll speed, EVERY chart of the domain of EVERY game -- in particular charts WITH an SV list (osu, Quaver): tempo
+   rows and SV rows in any row order, SVs coincident with a tempo point or with each other (the last in row order
+   counts), before the first tempo point, after the last note -- and every override > 0 or none: the speed at every
+   breakpoint is active bpm / reference * active SV multiplier (an SV lasts until the next SV or tempo point; the
+   reference is the override, else a dominant bpm), and every tempo point and every SV is a breakpoint.  No side
+   condition beyond the property's domain [wf_chart] is needed.  (Proofs/ScrollSvProofs.v: the SV table carries
+   [sv_at] at every key; the bpm frame and the SV table have one row per key, so the outer merge has one row per
+   key; forward fill of the bpm column over SV-only keys keeps the active bpm.) *)
+Theorem C19_scroll_speed_spec : forall c ov,
+  wf_chart c = true -> wf_override ov = true -> scroll_spec 0 c ov (scroll_speed c ov).
+Proof. exact scroll_speed_spec. Qed.
+
+(* the same with respect to ANY given reference value (everything of scroll_speed except the choice of the reference) *)
+Theorem C19_scroll_speed_with_spec : forall c ref,
+  wf_chart c = true -> exists o, scroll_speed_with c ref = Some o /\ scroll_ok 0 c ref o.
+Proof. exact scroll_speed_with_spec. Qed.
+
+(* Independent cross-check kept from before the general proof: the same statement for every chart of an exhaustive
+   small scope (about 35 000 charts, see Proofs/AnalysisProofs.v, section D), by evaluating the proven-sound oracle on
+   the model's output. *)
+Theorem C19_scroll_speed_small_scope : forall b s n,
   In b small_tempos -> In s small_svs -> In n small_notes -> wf_chart (mkChart b s n) = true ->
   exists o, scroll_speed_with (mkChart b s n) 3 = Some o /\ scroll_ok 0 (mkChart b s n) 3 o.
-Proof. exact scroll_speed_spec_partial. Qed.
+Proof. exact scroll_speed_small_scope. Qed.
+
+(* Beyond the property text (which does not promise it) -- what sv_normalize is for: on the chart whose SV list is
+   REPLACED by sv_normalize's result (same override), scroll_speed is 1 at every breakpoint and every tempo point is
+   a breakpoint; every chart of the domain, any row order, every override > 0 or none. *)
+Theorem C19_normalize_then_scroll : forall c ov n,
+  wf_chart c = true -> wf_override ov = true -> sv_normalize c ov = Some n ->
+  exists o, scroll_speed (mkChart (c_bpms c) (Some n) (c_notes c)) ov = Some o
+            /\ (forall t s, In (t, s) o -> exists v, s = Some v /\ v == 1)
+            /\ (forall r, In r (c_bpms c) -> has_breakpoint o (fst r)).
+Proof. exact normalize_then_scroll. Qed.
 
 (* The boolean oracles evaluated on the implementation's outputs are sound (the dominant-bpm one also complete). *)
 Theorem C19_dominant_oracle_sound : forall tol c out, dominant_specb tol c out = true -> dominant_spec tol c out.
@@ -65,3 +92,16 @@ Example C19_nonvacuous :
   wf_chart c && dominant_specb 0 c (dominant_bpm c) && scroll_specb 0 c None (scroll_speed c None)
   && norm_specb 0 c (Some 90) (sv_normalize c (Some 90)) && norm_specb 0 c None (sv_normalize c None) = true.
 Proof. vm_compute. reflexivity. Qed.
+
+(* the hypotheses of C19_scroll_speed_spec are met by a concrete chart with UNSORTED tempo and SV rows, an SV before
+   the first tempo point (-500), an SV at a tempo point's time (1000), two SVs at one time (1500: the later row, 4,
+   counts), an SV after the last note (5000); the model returns exactly these speeds (dominant bpm 60; override 120),
+   which is also what /repo returns on this chart *)
+Example C19_scroll_speed_example :
+  let c := mkChart [(1000, 240); (0, 120); (2000, 60)]
+                   (Some [(1500, 2); (5000, 3); (-500, 2); (1000, 3 # 2); (1500, 4)]) [0; 2500; 4000] in
+  wf_chart c = true /\ wf_override (Some 120) = true
+  /\ scroll_speed c None = Some [(-500, Some 4); (0, Some 2); (1000, Some 6); (1500, Some 16); (2000, Some 1); (5000, Some 3)]
+  /\ scroll_speed c (Some 120)
+     = Some [(-500, Some 2); (0, Some 1); (1000, Some 3); (1500, Some 8); (2000, Some (1 # 2)); (5000, Some (3 # 2))].
+Proof. vm_compute. repeat split. Qed.
